@@ -225,7 +225,13 @@ def memcheck_keys(stderr):
                 fn = re.sub(r"\(.*$", "", fm.group(1))
                 fn = re.sub(r"<.*>", "<>", fn)
                 break
-        keys.setdefault("memcheck:%s@%s" % (kind, fn or "harness"), m.group(0)[:3000])
+        if not fn:
+            # no library frame: the harness is using something the library handed back (an uninitialised unit that the monitor
+            # compares, a pointer it reads through).  The harness is silent under memcheck on the unchanged tree, so this is
+            # attributed to the library's result, keyed by the harness function that tripped over it
+            hm = re.search(r"(?:at|by) 0x[0-9A-F]+: ([A-Za-z_][\w:<>~ ,*&]*?)(?:\(|\s\()[^\n]*\((?:buffer|conv|sstream|vrt\w*|ref_\w+)\.(?:cpp|h):\d+\)", m.group(2))
+            fn = "harness-use-of-a-library-result:" + (re.sub(r"<.*>", "<>", hm.group(1)).strip() if hm else "unknown")
+        keys.setdefault("memcheck:%s@%s" % (kind, fn), m.group(0)[:3000])
     return keys
 
 
@@ -374,7 +380,7 @@ def run_pool(binp, build_name, prop, tier, seed, nworkers, rundir, dbits, extra_
                         mk = {"memcheck:unclassified@harness": stderr[-3000:]}
                     for k, blk in mk.items():
                         if k.endswith("@harness"):
-                            raise HarnessFailure("memcheck error outside the library headers:\n" + blk)
+                            raise HarnessFailure("unclassified memcheck output:\n" + blk)
                         add_violation(k, "memcheck", rep.get("worker", w), "valgrind memcheck report (plain build)", blk)
                 res.reports.append(rep)
                 os.rename(os.path.join(rundir, "w%d.json" % w), os.path.join(rundir, "w%d.done.%d.json" % (w, j["attempt"])))
